@@ -86,15 +86,40 @@ fn main() {
         "thorough" => Tier::Thorough,
         _ => usage(),
     };
-    let ctx = Ctx::new(id, tier);
+    let ctx: &'static Ctx = Box::leak(Box::new(Ctx::new(id, tier)));
+    // Wall budget: on the unchanged tree the slowest quick check takes under a minute and the slowest
+    // thorough one a few minutes. A check that is still running after 15 min / 3 h is stuck in a call
+    // into the library that does not return (parts that run in-process cannot be interrupted): that
+    // is reported as what it is, together with everything found so far.
+    let budget = std::time::Duration::from_secs(match tier {
+        Tier::Quick => 900,
+        Tier::Thorough => 3 * 3600,
+    });
+    std::thread::spawn(move || {
+        std::thread::sleep(budget);
+        ctx.violation(
+            format!("{id}:check-does-not-finish"),
+            format!("the {} check was still running after {} s: a call into the library does not return (hang or spin) on some case of this check", tier.name(), budget.as_secs()),
+            serde_json::json!({"engine": "wall-budget"}),
+            u64::MAX,
+        );
+        let mut rep = Report::new("exploration");
+        rep.set("exhaustive", false);
+        rep.set("stopped_by_wall_budget_s", budget.as_secs());
+        rep.set("evaluations", 0u64);
+        rep.set("distinct_nontrivial", 0u64);
+        rep.set("rule", "the check did not finish within its wall budget; nothing about coverage can be said for this run");
+        let code = finish(ctx, rep);
+        std::process::exit(code);
+    });
     let report = match CHECKS.iter().find(|(n, _)| *n == id) {
-        Some((_, f)) => f(&ctx),
+        Some((_, f)) => f(ctx),
         None => {
             eprintln!("unknown property {id}");
             std::process::exit(2);
         }
     };
-    let code = finish(&ctx, report);
+    let code = finish(ctx, report);
     std::process::exit(code);
 }
 
@@ -125,7 +150,13 @@ const CHECKS: &[(&str, CheckFn)] = &[
 ];
 
 /// replay-file "engine" tag -> replayer
+fn replay_wall_budget(_v: &serde_json::Value) -> i32 {
+    println!("a wall-budget verdict has no single case to replay: run the check again");
+    2
+}
+
 const REPLAYERS: &[(&str, ReplayFn)] = &[
+    ("wall-budget", replay_wall_budget),
     ("e1", wirechecks::replay_e1),
     ("c03", c03::replay),
     ("c04", c04::replay),
